@@ -37,6 +37,14 @@ Theorem C11_match_as_path : forall actual wanted,
 Proof. exact rq_match_as_path_spec. Qed.
 Print Assumptions C11_match_as_path.
 
+(* ... of the WHOLE path: the hops come from all segments of the AS_PATH ([rq_hops]); the filter
+   matches iff every segment is an AS_SEQUENCE and the sequences, joined, are the wanted list -
+   however the path is cut into segments *)
+Theorem C11_match_as_path_segments : forall segs wanted,
+  rq_match_as_path (rq_hops segs) wanted = true <-> exists ls, segs = map SegSeq ls /\ concat ls = wanted.
+Proof. exact rq_match_as_path_segments. Qed.
+Print Assumptions C11_match_as_path_segments.
+
 (* The community filter. The communities of a route are the members of ALL its
    community-carrying attributes ([pa_cattrs]: COMMUNITIES, EXTENDED COMMUNITIES,
    LARGE_COMMUNITY, IPv6 extended, in the order they stand in the route's attribute map):
